@@ -187,8 +187,8 @@ func c16ListLaws(c *Ctx, dr *Driver, h *HistGen, g *Gen, docM map[string]interfa
 	}
 	pool = append(pool, h.val(), nil)
 	n := 1 + g.pick(4)
-	var xs []interface{}  // Go operands
-	var xj []interface{}  // protocol operands
+	var xs []interface{} // Go operands
+	var xj []interface{} // protocol operands
 	for k := 0; k < n; k++ {
 		var v interface{}
 		if k > 0 && g.pick(3) == 0 {
